@@ -70,7 +70,8 @@ def Node.WF : Node → Prop
   | .file h p => hdrIs h 4 4 ∧ ∀ c ∈ p, c ≠ '\x00'
   | .fwfile h name => hdrIs h 4 6 ∧ name.length = 16
   | .usb h port iface => hdrIs h 3 5 ∧ port < 256 ∧ iface < 256
-  | .nil => False
+  | .vendor _ _ => False
+  | .generic _ => False
 
 instance Node.decWF : (n : Node) → Decidable n.WF
   | .pci .. => by unfold Node.WF; exact inferInstance
@@ -79,7 +80,8 @@ instance Node.decWF : (n : Node) → Decidable n.WF
   | .file .. => by unfold Node.WF; exact inferInstance
   | .fwfile .. => by unfold Node.WF; exact inferInstance
   | .usb .. => by unfold Node.WF; exact inferInstance
-  | .nil => by unfold Node.WF; exact inferInstance
+  | .vendor _ _ => by unfold Node.WF; exact inferInstance
+  | .generic _ => by unfold Node.WF; exact inferInstance
 
 def LoadOption.WF (lo : LoadOption) : Prop :=
   lo.attrs < 2^32 ∧ lo.pathLen < 2^16 ∧ (∀ c ∈ lo.desc, c ≠ '\x00') ∧ ∀ n ∈ lo.nodes, n.WF
@@ -212,12 +214,14 @@ theorem parseNode_encNode (n : Node) (h : n.WF) (rest : Bytes) :
     obtain ⟨hh, h1, h2⟩ := h
     obtain ⟨c, d, rfl⟩ := hdrIs_shape hh
     exact parseNode_usb c d port iface h1 h2 rest
-  | nil => exact absurd h (by simp [Node.WF])
+  | vendor hdr g => exact absurd h (by simp [Node.WF])
+  | generic hdr => exact absurd h (by simp [Node.WF])
 
 /-- every encoded well-formed node is at least its 4 header bytes long -/
 theorem encNode_length_ge (n : Node) (h : n.WF) : 4 ≤ (Spec.encNode n).length := by
   cases n with
-  | nil => exact absurd h (by simp [Node.WF])
+  | vendor hdr g => exact absurd h (by simp [Node.WF])
+  | generic hdr => exact absurd h (by simp [Node.WF])
   | pci hdr fn dev => have := h.1.1; simp [Spec.encNode]; omega
   | acpi hdr hid uid => have := h.1.1; simp [Spec.encNode]; omega
   | hd hdr part start size sig fmt st => have := h.1.1; simp [Spec.encNode]; omega
